@@ -389,6 +389,16 @@ impl Token<'_> {
   }
 }
 
+/// Writes a floating-point literal so that it reads back as a floating-point
+/// literal: an integral value keeps a fraction (`1.0`, not `1`)
+pub(crate) fn write_float(f: &mut fmt::Formatter, value: f64) -> fmt::Result {
+  if value.is_finite() && value == value.trunc() {
+    write!(f, "{:.1}", value)
+  } else {
+    write!(f, "{}", value)
+  }
+}
+
 /// Range value
 #[derive(Debug, PartialEq, Clone)]
 pub enum RangeValue<'a> {
@@ -441,7 +451,7 @@ impl fmt::Display for RangeValue<'_> {
       RangeValue::IDENT(ident, _) => write!(f, "{}", ident),
       RangeValue::INT(i) => write!(f, "{}", i),
       RangeValue::UINT(i) => write!(f, "{}", i),
-      RangeValue::FLOAT(fl) => write!(f, "{}", fl),
+      RangeValue::FLOAT(fl) => write_float(f, *fl),
     }
   }
 }
@@ -481,7 +491,7 @@ impl fmt::Display for Value<'_> {
       Value::TEXT(text) => write!(f, "\"{}\"", text),
       Value::INT(i) => write!(f, "{}", i),
       Value::UINT(ui) => write!(f, "{}", ui),
-      Value::FLOAT(float) => write!(f, "{}", float),
+      Value::FLOAT(float) => write_float(f, *float),
       Value::BYTE(bv) => write!(f, "{}", bv),
     }
   }
